@@ -11,7 +11,7 @@ from typing import Any, Dict, List, Optional
 from . import anf, deps
 from .anf import Rat, sym
 from .guards import G, TRUE, FALSE, g_and, g_or, g_not, atom as g_atom
-from .gvn import Event, Frame, NONE, Obj, PW, Unsupported, Vec, lift, mk_pw, vkey
+from .gvn import Event, Frame, NONE, Obj, PW, Unsupported, Vec, lift, mk_pw, vkey, cases_of
 from .model import norm_text
 
 _tables: Dict[str, Dict[int, str]] = {}
@@ -27,7 +27,7 @@ def _table() -> Dict[int, str]:
               "power", "divide", "dot", "zeros", "ones", "empty", "array", "asarray", "all", "any", "argmax", "argmin",
               "amax", "amin", "max", "min", "median", "cross", "where", "unique", "sort", "concatenate", "abs",
               "argsort", "column_stack", "hstack", "append", "delete", "diff", "argwhere", "arange", "percentile",
-              "searchsorted", "zeros_like", "empty_like", "polyfit", "corrcoef", "full", "array_equal", "ptp",
+              "searchsorted", "zeros_like", "empty_like", "polyfit", "corrcoef", "full", "full_like", "array_equal", "ptp",
               "multiply", "add", "subtract", "true_divide", "exp", "clip", "float64", "nansum", "cumsum", "prod"):
         if hasattr(np, n):
             t.setdefault(id(getattr(np, n)), "np." + n)
@@ -329,11 +329,27 @@ def _package_call(fr: Frame, fi, e, args, kwargs, guard, stmt):
     return lift(mk, *[amap[n] for n in names])
 
 
+def range_items(ev, o):
+    """The elements of a range value as a one-block list: range(a, b, s) holds a, a+s, .. below b."""
+    args = getattr(ev, "range_registry", {}).get(o.key)
+    if args is None:
+        return None
+    from .seqdom import mk_gen, var_symbol
+    lo, hi, st = (Rat.const(0), args[0], Rat.const(1)) if len(args) == 1 else (args[0], args[1], args[2] if len(args) == 3 else Rat.const(1))
+    d = ev.gen_depth
+    if st.is_const() == 1:
+        return Vec([mk_gen(d, lo, hi, st, [(TRUE, var_symbol(d), False)])], "list")
+    from .seqdom import Gen
+    return Vec([Gen(d, lo, hi, st, [(TRUE, var_symbol(d), False)], ranged=True)], "list")
+
+
 def _method_call(fr: Frame, e, f: ast.Attribute, args, kwargs, env, guard, stmt):
     ev = fr.ev
     m = f.attr
     base_name = f.value.id if isinstance(f.value, ast.Name) else norm_text(f.value)
     if m in ("append", "extend", "insert", "remove", "sort", "reverse", "clear", "add", "update", "fill"):
+        if m == "extend" and len(args) == 1 and isinstance(args[0], Obj) and args[0].tag == "range" and range_items(ev, args[0]) is not None:
+            args = [range_items(ev, args[0])]
         if isinstance(f.value, ast.Name) and f.value.id in env:
             cur = env[f.value.id]
             if isinstance(cur, Vec) and cur.kind == "list" and fr.havoc_depth == 0 and (guard.kind == "true" or ev.summarise_loops):
@@ -342,6 +358,8 @@ def _method_call(fr: Frame, e, f: ast.Attribute, args, kwargs, env, guard, stmt)
                     env[f.value.id] = Vec(list(cur.items) + [args[0]], "list")
                 elif m == "extend" and len(args) == 1 and isinstance(args[0], Vec):
                     env[f.value.id] = Vec(list(cur.items) + list(args[0].items), "list")
+                elif m == "extend" and len(args) == 1 and isinstance(args[0], Obj) and args[0].tag == "range" and range_items(ev, args[0]) is not None:
+                    env[f.value.id] = Vec(list(cur.items) + list(range_items(ev, args[0]).items), "list")
                 else:
                     env[f.value.id] = anf.opaque("list:" + f.value.id, extra=fr.ev.fresh_sym("l").key[0])
             elif isinstance(cur, Vec) and cur.kind == "list":
@@ -507,12 +525,16 @@ def _known(fr: Frame, name: str, e, args, kwargs, env, guard, stmt):
         return lift(norm, a(0))
     if name in ("np.zeros", "np.zeros_like"):
         return Rat.const(0)
+    if name in ("np.full", "np.full_like") and len(args) >= 2 and all(isinstance(v_, Rat) and not v_.is_array() for _g, v_ in cases_of(a(1))):
+        return a(1)               # the fill value at every position (the dtype question is the dtype guard's)
     if name == "np.ones":
         return Rat.const(1)
     if name in ("np.array", "np.asarray", "py.list", "py.tuple", "py.float", "np.float64"):
         if not args:
             return Vec([], "list")
         v = a(0)
+        if isinstance(v, Obj) and v.tag == "range" and range_items(ev, v) is not None:
+            return range_items(ev, v)
         if isinstance(v, Vec) and v.kind == "list" and len(v.items) == 2 and name.startswith("np.") \
                 and all(isinstance(i, Rat) for i in v.items):
             return Vec(v.items, "point")
@@ -564,7 +586,10 @@ def _known(fr: Frame, name: str, e, args, kwargs, env, guard, stmt):
     if name == "py.round":
         return lift(lambda v: anf.opaque("round", R(v)), a(0))
     if name == "py.range":
-        return Obj("range", tuple(vkey(x) for x in args))
+        o = Obj("range", tuple(vkey(x) for x in args))
+        if ev.summarise_loops and 1 <= len(args) <= 3 and all(isinstance(x, Rat) and not x.is_array() for x in args):
+            ev.range_registry[o.key] = tuple(args)
+        return o
     if name in ("py.print",):
         return NONE
     if name == "np.median":
